@@ -119,4 +119,10 @@ DRIVERS = {
         "level_text": "All schedules with at most PB preemptions of each counter program and of each client-session configuration are executed on the real implementation, one process per schedule, over real AF_UNIX sockets whose readiness is peeked non-blockingly by the scheduler; timeouts (2 s socket, 5 s shutdown wait) fire in virtual time at quiescence. Every call/return history must be linearizable, every session must get at most one well-formed reply, the server must stay responsive and ~Stats must return.",
         "level_note": "Trusted: scheduler and its enabledness rules (poll-based readiness, timers at quiescence), harness clients. Scheduling-point granularity; data races are the TSan pass's job.",
     },
+    "C14": {
+        "sources": COMMON_E2 + ["props/c14.cpp"], "level": "model_checking", "engine": "E2",
+        "technique": "stateless preemption-bounded enumeration of all schedules of main loop x real inotify/epoll watcher thread x environment thread for every bounded file-operation sequence, under a cooperative scheduler; convergence oracle against the file system's final contents; separate ThreadSanitizer pass",
+        "level_text": "For every environment sequence within the bound, all schedules with at most PB preemptions are executed on the real FsDropInService (real inotify, epoll, eventfd on a private directory), one process per schedule; the run must not deadlock, abort or crash, and once the file system is quiet and three more ticks have run the engine's drop-ins must be exactly the valid non-dot files present with their latest content; start-up files must load in name order.",
+        "level_note": "Trusted: scheduler (epoll readiness peeked non-blockingly; inotify delivers synchronously), harness environment thread. Scheduling-point granularity; data races are the TSan pass's job.",
+    },
 }
